@@ -60,7 +60,8 @@ class Robust(Part):
                     for sizes in ([1], [2], [1, 1], [2, 1], [1, 2, 1], [3, 1, 2], [1, 1, 1, 1], [2, 3, 1, 2]):
                         if ctx.quick and rng.random() < 0.35:
                             continue
-                        cases.append({"kind": kind, "n": n, "userm": um, "sizes": sizes, "run": None, "cseed": rng.randrange(1 << 30)})
+                        cases.append({"kind": kind, "n": n, "userm": um, "sizes": sizes, "run": None, "twins": rng.random() < 0.3,
+                                      "cseed": rng.randrange(1 << 30)})
         for _ in range(6 if ctx.quick else 60):
             cases.append({"kind": "worstcase", "n": rng.randint(1, 3), "userm": rng.randint(1, 2), "sizes": None,
                           "run": rng.choice(["nsga2", "epsmoea"]), "pop": rng.randint(2, 5), "gens": rng.randint(2, 4),
@@ -107,6 +108,9 @@ class Robust(Part):
                     ok = len(nz) == 1 and abs(abs(d[nz[0]]) - step[nz[0]]) <= 1e-12
                     disp.append({"axis": (nz[0] + 1) if nz else 0, "sign": (1 if d[nz[0]] > 0 else -1) if nz else 0, "ok": bool(ok)})
                 ncalls = calls.get(tuple(x), 0) + sum(calls.get(tuple(float(v) for v in c.vector), 0) for c in ch)
+                # designs that repeat the coordinates of another design share their vectors: split the calls evenly
+                mult = sum(1 for other in seen if [float(v) for v in other.vector] == x)
+                ncalls = ncalls // mult if ncalls % mult == 0 else -1
                 rec = {"k": k + 1, "new": ind in new, "costlen": len(ind.costs), "signedlen": len(ind.costs_signed),
                        "calls": ncalls, "disp": disp, "f": 0, "fc": [], "childcosts": [], "sens": 0, "sensfeature": 0, "signedsens": 0,
                        "quot": [], "coef": coef, "x2": [int(round(2 * v)) for v in x], "gradlen": 0}
@@ -128,7 +132,7 @@ class Robust(Part):
 
         def lattice_vector():
             if kind == "gradient":
-                return [rng.randint(-6, 6) * 0.5 for _ in range(n)]
+                return [rng.randint(-18, 18) * 0.5 for _ in range(n)]
             return [rng.randint(-int(18 / t), int(18 / t)) * t for t in tols]
 
         if case["run"] is None:
@@ -139,11 +143,15 @@ class Robust(Part):
             used = set()
             for size in case["sizes"]:
                 batch = []
+                tries = 0
                 while len(batch) < size:
+                    tries += 1
+                    if tries > 2000:
+                        raise Skip()
                     v = lattice_vector()
                     # keep designs and their neighbours apart so that objective calls can be attributed to one design
                     hood = {tuple(v)}
-                    for i in range(n):
+                    for i in range(n if kind == "worstcase" else 0):
                         for sgn in (-1, 1):
                             w = list(v)
                             w[i] += sgn * tols[i]
@@ -152,6 +160,8 @@ class Robust(Part):
                         continue
                     used |= hood
                     batch.append(Individual(v))
+                    if case.get("twins") and len(batch) < size and rng.random() < 0.5:
+                        batch.append(Individual(list(v)))      # a second design object with the same coordinates
                 seen.extend(batch)
                 st, res = observe(alg.evaluate, batch)
                 snapshot(batch, "" if st == "ok" else res)
